@@ -1434,7 +1434,7 @@ def run(ck) -> None:
     ck.notes.append("principal theorem partial: proved stages dims/shapes/types, tensors, value-info, attributes "
                     "(all kinds), nodes in a scope stack; missing: graph/scoping, function, model — for those the "
                     "case files evaluate wf p -> norm (ser (deser p)) = norm p on every generated proto")
-    n_models = 200 if not ck.thorough else 1500
+    n_models = 200 if not ck.thorough else 4000
     # 1. corpus
     corpus_dir = os.path.join(common.CORPUS, "C02")
     corpus_cases: dict[str, list[dict]] = {k: [] for k in KINDS}
